@@ -109,15 +109,21 @@ package vm
 //@ ghost initBal arr[machine.AccountAddress]arr[machine.Asset]int
 //@ define J1(b map[machine.AccountAddress]map[machine.Asset]*machine.MonetaryInt, st []machine.Value, ps []Posting, ib arr[machine.AccountAddress]arr[machine.Asset]int) bool = forall a machine.AccountAddress, x machine.Asset :: {bal(b, a, x)} {netD(st, ps, a, x)} tracked(b, a, x) ==> bal(b, a, x) <= ib[a][x] + netD(st, ps, a, x)
 
+// pop's body (5 lines, generic type assertion) is assumed GIVEN its precondition: the stack is not empty and its top has
+// the demanded type. Every call site in tick must establish that precondition from tick's own `requires` (stackShape per
+// opcode), so what is trusted about compiler output is spelled out there and nowhere else.
 //@ assumed func pop(m *Machine) (r T)
+//@   requires len(m.Stack) > 0 && is(m.Stack[len(m.Stack) - 1], T)
 //@   modifies m
-//@   ensures unchangedExcept(m, old(m), Stack) && len(old(m.Stack)) > 0 && len(m.Stack) == len(old(m.Stack)) - 1 && sameArray(m.Stack, old(m.Stack))
-//@   ensures is(old(m.Stack)[len(old(m.Stack)) - 1], T) && r == old(m.Stack)[len(old(m.Stack)) - 1].(T)
+//@   ensures unchangedExcept(m, old(m), Stack) && len(m.Stack) == len(old(m.Stack)) - 1 && sameArray(m.Stack, old(m.Stack))
+//@   ensures r == old(m.Stack)[len(old(m.Stack)) - 1].(T)
 
-//@ assumed func (m *Machine) popValue() (r machine.Value)
+//@ func (m *Machine) popValue() (r machine.Value)
+//@   property C22 C23 C27
+//@   requires len(m.Stack) > 0
 //@   modifies m
-//@   ensures unchangedExcept(m, old(m), Stack) && len(old(m.Stack)) > 0 && len(m.Stack) == len(old(m.Stack)) - 1 && sameArray(m.Stack, old(m.Stack))
-//@   ensures r == old(m.Stack)[len(old(m.Stack)) - 1] && r != nil
+//@   ensures unchangedExcept(m, old(m), Stack) && len(m.Stack) == len(old(m.Stack)) - 1 && sameArray(m.Stack, old(m.Stack))
+//@   ensures r == old(m.Stack)[len(old(m.Stack)) - 1]
 
 //@ func (m *Machine) pushValue(v machine.Value)
 //@   property C22 C23 C27
@@ -142,6 +148,20 @@ package vm
 //@   requires m.Program.Instructions[m.P] == program.OP_ALLOC ==> len(m.Stack) > 1 && is(m.Stack[len(m.Stack) - 1], machine.Allotment) && ratsum(m.Stack[len(m.Stack) - 1].(machine.Allotment)) == 1
 //@   requires m.Program.Instructions[m.P] == program.OP_ALLOC ==> is(m.Stack[len(m.Stack) - 2], machine.Monetary) && val(m.Stack[len(m.Stack) - 2].(machine.Monetary).Amount) >= 0
 //@   requires m.Program.Instructions[m.P] == program.OP_SAVE ==> len(m.Stack) > 1 && (is(m.Stack[len(m.Stack) - 2], machine.Asset) || (is(m.Stack[len(m.Stack) - 2], machine.Monetary) && val(m.Stack[len(m.Stack) - 2].(machine.Monetary).Amount) >= 0))
+// stackShape(op): the typed stack discipline trusted about compiler output
+//@   requires (m.Program.Instructions[m.P] == program.OP_DELETE || m.Program.Instructions[m.P] == program.OP_PRINT || m.Program.Instructions[m.P] == program.OP_ASSET) ==> len(m.Stack) > 0
+//@   requires (m.Program.Instructions[m.P] == program.OP_IADD || m.Program.Instructions[m.P] == program.OP_ISUB) ==> len(m.Stack) > 1 && is(m.Stack[len(m.Stack) - 1], *machine.MonetaryInt) && is(m.Stack[len(m.Stack) - 2], *machine.MonetaryInt)
+//@   requires (m.Program.Instructions[m.P] == program.OP_MONETARY_NEW) ==> len(m.Stack) > 1 && is(m.Stack[len(m.Stack) - 1], *machine.MonetaryInt) && is(m.Stack[len(m.Stack) - 2], machine.Asset)
+//@   requires (m.Program.Instructions[m.P] == program.OP_MONETARY_ADD || m.Program.Instructions[m.P] == program.OP_MONETARY_SUB) ==> len(m.Stack) > 1 && is(m.Stack[len(m.Stack) - 1], machine.Monetary) && is(m.Stack[len(m.Stack) - 2], machine.Monetary)
+//@   requires (m.Program.Instructions[m.P] == program.OP_MAKE_ALLOTMENT) ==> forall j int :: {m.Stack[j]} len(m.Stack) - 1 - val(m.Stack[len(m.Stack) - 1].(*machine.MonetaryInt)) <= j && j < len(m.Stack) - 1 ==> is(m.Stack[j], machine.Portion)
+//@   requires (m.Program.Instructions[m.P] == program.OP_TAKE_ALL || m.Program.Instructions[m.P] == program.OP_TAKE_ALWAYS) ==> len(m.Stack) > 1 && is(m.Stack[len(m.Stack) - 1], machine.Monetary) && is(m.Stack[len(m.Stack) - 2], machine.AccountAddress)
+//@   requires (m.Program.Instructions[m.P] == program.OP_TAKE || m.Program.Instructions[m.P] == program.OP_TAKE_MAX) ==> len(m.Stack) > 1 && is(m.Stack[len(m.Stack) - 1], machine.Monetary) && is(m.Stack[len(m.Stack) - 2], machine.Funding)
+//@   requires (m.Program.Instructions[m.P] == program.OP_FUNDING_ASSEMBLE) ==> forall j int :: {m.Stack[j]} len(m.Stack) - 1 - val(m.Stack[len(m.Stack) - 1].(*machine.MonetaryInt)) <= j && j < len(m.Stack) - 1 ==> is(m.Stack[j], machine.Funding)
+//@   requires (m.Program.Instructions[m.P] == program.OP_FUNDING_SUM || m.Program.Instructions[m.P] == program.OP_FUNDING_REVERSE || m.Program.Instructions[m.P] == program.OP_REPAY) ==> len(m.Stack) > 0 && is(m.Stack[len(m.Stack) - 1], machine.Funding)
+//@   requires (m.Program.Instructions[m.P] == program.OP_SEND) ==> len(m.Stack) > 1 && is(m.Stack[len(m.Stack) - 1], machine.AccountAddress) && is(m.Stack[len(m.Stack) - 2], machine.Funding)
+//@   requires (m.Program.Instructions[m.P] == program.OP_TX_META) ==> len(m.Stack) > 1 && is(m.Stack[len(m.Stack) - 1], machine.String)
+//@   requires (m.Program.Instructions[m.P] == program.OP_ACCOUNT_META) ==> len(m.Stack) > 2 && is(m.Stack[len(m.Stack) - 1], machine.AccountAddress) && is(m.Stack[len(m.Stack) - 2], machine.String)
+//@   requires (m.Program.Instructions[m.P] == program.OP_SAVE) ==> len(m.Stack) > 1 && is(m.Stack[len(m.Stack) - 1], machine.AccountAddress)
 //@   requires wfBal(m.Balances) && wfStack(m.Stack) && m.TxMeta != nil && m.AccountsMeta != nil
 //@   requires forall i int :: {m.Resources[i]} 0 <= i && i < len(m.Resources) ==> wfValue(m.Resources[i]) && !is(m.Resources[i], machine.Funding)
 //@   requires nnPostings(m.Postings)
@@ -163,10 +183,12 @@ package vm
 //@   ensures err == nil && !finished ==> m.P < len(m.Program.Instructions)
 //@   loop 1:
 //@     invariant unchangedExcept(m, old(m), Stack) && wfStack(m.Stack) && len(portions) == val(n) && i <= val(n)
+//@     invariant sameArray(m.Stack, old(m.Stack)) && len(m.Stack) == len(old(m.Stack)) - 1 - i && val(n) == val(old(m.Stack)[len(old(m.Stack)) - 1].(*machine.MonetaryInt))
 //@     invariant forall j int :: {portions[j]} 0 <= j && j < i ==> (!portions[j].Remaining ==> portions[j].Specific != nil && deref(portions[j].Specific).den > 0 && deref(portions[j].Specific).num >= 0)
 //@     invariant forall a machine.AccountAddress, x machine.Asset :: {infl(m.Stack, a, x)} {infl(old(m.Stack), a, x)} infl(m.Stack, a, x) == infl(old(m.Stack), a, x)
 //@   loop 2:
 //@     invariant unchangedExcept(m, old(m), Stack) && wfStack(m.Stack) && 1 <= i && i <= n && len(fundings_rev) == n
+//@     invariant sameArray(m.Stack, old(m.Stack)) && len(m.Stack) == len(old(m.Stack)) - 1 - i && n == val(old(m.Stack)[len(old(m.Stack)) - 1].(*machine.MonetaryInt))
 //@     invariant forall j int :: {fundings_rev[j]} 0 <= j && j < i ==> wfParts(fundings_rev[j].Parts) && fundings_rev[j].Asset == result.Asset
 //@     invariant len(result.Parts) == 0
 //@     invariant forall a machine.AccountAddress, x machine.Asset :: {infl(m.Stack, a, x)} {infl(old(m.Stack), a, x)} infl(m.Stack, a, x) + fsum_upto(fundings_rev, i, a, x) == infl(old(m.Stack), a, x)
